@@ -418,3 +418,8 @@ def run(ck):
               'data_stack.iter().rev().find_map(..): the last import that knows the name wins' if ok else
               'the imported modules are searched as data_stack.%s().%s(..): an earlier import wins over a later one, so `import "dir"` no longer shadows the own directory '
               '(a type name provided twice resolves to the other class: other ancestry, other element kind)' % ('().'.join(reversed(chain)), fm['m'] if fm is not None else '?'), fn=gt['path'])
+
+    # instances of a component accept what their base class accepts: class tests by derivation (C11 R11.9, same facts)
+    import rules.c11 as c11
+    s11 = _core6.Shared(ck, 'R18.3', lambda r, k: r == 'R11.9', 'C11:', ' [a component rooted at QComboBox is a combo box]')
+    c11.run(s11)
